@@ -11,7 +11,7 @@ from .. import data as D
 from .. import meta as M
 from ..oracles import decode_ragged_dir, DecodeError, snapshot, snap_diff, snap_digest, leaks
 from ..readme import check_ragged_readme
-from .arrayhist import Viol, lenbucket, failing_iterable
+from .arrayhist import Viol, lenbucket, failing_iterable, Boom, Interrupt
 
 MUTATING = ('append', 'iterappend', 'iterappend_fail', 'truncate', 'delete') + M.META_OPS
 SMALLCAP = {'int8': 127, 'uint8': 255, 'int16': 32767}
@@ -99,7 +99,7 @@ class RaggedHistory(Engine):
         if k == 'iterappend_fail':
             n = rng.choice([1, 2, 3])
             return {'op': 'iterappend_fail', 'items': [self.gen_item(rng) for _ in range(n)], 'pos': rng.randint(0, n),
-                    'how': rng.choice(['raise', 'badshape', 'unconvertible'])}
+                    'how': rng.choice(['raise', 'raise_base', 'badshape', 'unconvertible'])}
         if k == 'append_bad':
             return {'op': 'append', 'item': dict(self.gen_item(rng), rows=rng.choice([1, 2]), form='ndarray'),
                     'bad': rng.choice(['shape', 'rank+', 'rank-', 'unconvertible', 'overflow', 'shape_empty', 'rank+_empty'])}
@@ -369,6 +369,8 @@ class _RState:
             return None
         except Exception as e:  # noqa
             return e
+        except Interrupt as e:
+            return e
 
     # ---- ops
     def step(self, op):
@@ -549,14 +551,15 @@ class _RState:
         pos = min(op['pos'], len(objs))
         raise_at = None
         atom = list(self.atom)
-        if op['how'] == 'raise':
+        if op['how'] in ('raise', 'raise_base'):
             raise_at = pos
         elif op['how'] == 'badshape':
             tr = (atom[:-1] + [atom[-1] + 1]) if atom else [2]
             objs = objs[:pos] + [np.zeros([1] + tr, dtype=self.dtype)] + objs[pos:]
         else:
             objs = objs[:pos] + [['x', 'y'] if not atom else object()] + objs[pos:]
-        exc = self.call(lambda: self.h.iterappend(failing_iterable(objs, 'generator', raise_at)))
+        exc = self.call(lambda: self.h.iterappend(failing_iterable(objs, 'generator', raise_at,
+                                                                  Interrupt if op['how'] == 'raise_base' else Boom)))
         if exc is None:
             raise Viol('model.iterappend_fail', 'no_exception', f'how={op["how"]} pos={pos}')
         self.L.extend(exps[:pos])
